@@ -56,7 +56,7 @@ Proof.
     unfold hc_iend in *.
     assert (Ok1 : cc_ok (cc_with c t (start + srcSize) (if ret <=? 0 then true else cc_dirty c))).
     { right. unfold cc_with, cc_tabs. cbn [cc_endIdx cc_hash cc_chain cc_ntu]. split; [lia|].
-      destruct S6 as (T1 & T2 & T3). split; [exact T1 | split; [exact T2 | exact T3]]. }
+      destruct S6 as (T1 & T2 & T3). split; [intros k; specialize (T1 k); cbn [t_hash] in *; lia | split; [exact T2 | exact T3]]. }
     cbn [cr_ctx cr_hw cr_ret cr_out cr_consumed].
     split.
     { destruct lim; try exact Ok1.
